@@ -47,7 +47,7 @@ Section Run.
     let kn := vN (vnth 0 input) in
     let o := v_wopts (vnth 1 input) in
     let roots := vcids (vnth 2 input) in
-    match open_new (kind_of kn) o (is_nil_tag (vnth 2 input)) roots (v_faults (vnth 3 input)) with
+    match fopen kn o (is_nil_tag (vnth 2 input)) roots (v_faults (vnth 3 input)) with
     | Err e => VL [VL [VT "err"; v_err e]; VL []; VB []]
     | Ok s =>
       let '(obs, file) := fsteps kn s (vL (vnth 4 input)) [] in
